@@ -145,7 +145,7 @@ pub fn plan(prop: &str) -> Option<Plan> {
             thorough_runs: 8_000_000,
             chunk: 2_500,
             builds: &[("checked", 1.0)],
-            rule: "one case = one seeded run of the front-end environment simulation: 1-3 module texts drawn from the corpus (the zoo modules, hand-written modules under /verif/corpus covering imports with OIDs, value references, WITH COMPONENTS, nested comments, tags of every class, recursive types, and every inline module of /repo/tests/*.rs) receive 1-4 storage faults of swarm-selected kinds (T-TRUNC torn file, T-DELCH/T-INSCH one char, T-DELTOK/T-DUPTOK/T-SWAPTOK/T-INSTOK/T-REPTOK token granularity incl. replacing a token by another one of the same module, T-NUM number replaced by empty/huge/negative/non-numeric) or a token soup is drawn (T-SOUP); the result goes through Tokenizer.parse -> Model::try_from -> try_resolve / MultiModuleResolver::try_resolve_all -> to_rust / to_rust_with_scope -> to_protobuf, each stage only if the previous returned Ok. Oracle: no panic other than the sanctioned unclosed-comment one; no abort, stack overflow or hang (child process exit status + watchdog). 1 in 80 quick runs (1 in 20 thorough) enumerates every fault position of one corpus module (every truncation point, every single token deleted, every adjacent pair swapped). Non-trivial = the tokenizer produced >= 10 tokens; distinct = distinct event-log hash (stage reach, token count).",
+            rule: "one case = one seeded run of the front-end environment simulation: 1-3 module texts drawn from the corpus (the zoo modules, hand-written modules under /verif/corpus covering imports with OIDs, value references, WITH COMPONENTS, nested comments, tags of every class, recursive types, and every inline module of /repo/tests/*.rs) receive 1-4 storage faults of swarm-selected kinds (T-TRUNC torn file, T-DELCH/T-INSCH one char, T-DELTOK/T-DUPTOK/T-SWAPTOK/T-INSTOK/T-REPTOK token granularity incl. replacing a token by another one of the same module, T-NUM number replaced by empty/huge/negative/non-numeric) or a token soup is drawn (T-SOUP), or (1 run in 20) a definition nested 2..40 000 levels deep in one of six forms is added to a corpus module (T-NEST); the result goes through Tokenizer.parse -> Model::try_from -> try_resolve / MultiModuleResolver::try_resolve_all -> to_rust / to_rust_with_scope -> to_protobuf, each stage only if the previous returned Ok. Oracle: no panic other than the sanctioned unclosed-comment one; no abort, stack overflow or hang (child process exit status + watchdog). 1 in 80 quick runs (1 in 20 thorough) enumerates every fault position of one corpus module (every truncation point, every single token deleted, every adjacent pair swapped). Non-trivial = the tokenizer produced >= 10 tokens; distinct = distinct event-log hash (stage reach, token count).",
             real: &["Tokenizer", "Model::try_from", "Model::try_resolve", "MultiModuleResolver::{push,try_resolve_all}", "Model::to_rust / to_rust_with_scope", "ToProtobufModel::to_protobuf"],
             stub: &["file system (an in-memory set of module texts; Converter::load_file's four lines are re-stated in the harness, Converter itself is not executed)"],
             assumptions: &[
